@@ -351,19 +351,20 @@ RebindGlobal(side, i) ==
   /\ UNCHANGED <<phase, sc, cellv, objv, deco, evals, conv, gfn>>
 
 Sides == {"f", "g", "c", "sib"}
-CallAct == IF Mode = "sim"                       \* random behaviours: one third canonical, one third accepted,
-           THEN \/ \E b \in CanonCalls : \E side \in {"f", "g", "c"}, i \in 1..NI : Call(side, i, b)   \* one third any
-                \/ \E b \in Accepted   : \E side \in {"f", "g", "c"}, i \in 1..NI : Call(side, i, b)
-                \/ \E b \in AllCalls   : \E side \in {"f", "g", "c"}, i \in 1..NI : Call(side, i, b)
-           ELSE \E b \in Calls : \E side \in CallSides, i \in 1..NI : Call(side, i, b)
-Act == \/ \E i \in 1..NI : Convert(i)
-       \/ CallAct
-       \/ \E side \in Sides, i \in 1..NI, n \in Names, how \in {"call", "cell", "sib"} : Rebind(side, i, n, how)
-       \/ \E side \in Sides, i \in 1..NI, n \in Names : ReadBack(side, i, n)
-       \/ \E side \in {"f", "g"}, i \in 1..NI, o \in ObjIds : MutateDefault(side, i, o)
-       \/ \E side \in {"f", "g"}, i \in 1..NI : RebindGlobal(side, i)
+(* one named action per kind of step (the guard Running comes first so that finished behaviours cost nothing) *)
+ConvertAct  == Running /\ \E i \in 1..NI : Convert(i)
+CallAct     == Running /\
+               IF Mode = "sim"                   \* random behaviours: one third canonical, one third accepted,
+               THEN \/ \E b \in CanonCalls : \E side \in {"f", "g", "c"}, i \in 1..NI : Call(side, i, b)   \* one third any
+                    \/ \E b \in Accepted   : \E side \in {"f", "g", "c"}, i \in 1..NI : Call(side, i, b)
+                    \/ \E b \in AllCalls   : \E side \in {"f", "g", "c"}, i \in 1..NI : Call(side, i, b)
+               ELSE \E b \in Calls : \E side \in CallSides, i \in 1..NI : Call(side, i, b)
+RebindAct   == Running /\ \E side \in Sides, i \in 1..NI, n \in Names, how \in {"call", "cell", "sib"} : Rebind(side, i, n, how)
+ReadBackAct == Running /\ \E side \in Sides, i \in 1..NI, n \in Names : ReadBack(side, i, n)
+MutateAct   == Running /\ \E side \in {"f", "g"}, i \in 1..NI, o \in ObjIds : MutateDefault(side, i, o)
+GlobalAct   == Running /\ \E side \in {"f", "g"}, i \in 1..NI : RebindGlobal(side, i)
 Next == \/ PickSig \/ PickEnv \/ PreConvert
-        \/ (Running /\ Act)
+        \/ ConvertAct \/ CallAct \/ RebindAct \/ ReadBackAct \/ MutateAct \/ GlobalAct
 Spec == Init /\ [][Next]_vars
 
 (* ---- the property, on the model ------------------------------------------------------- *)
